@@ -23,9 +23,9 @@ CLAIMED = {
  "C08": dict(cat="proof", ref="5 C08", tech=TECH,
    text="per-call step: Server::handle_call writes nothing for a oneway call, hands back a stream without writing, or performs exactly one write of one final reply / error frame on the calling connection's writer; plus the connection bookkeeping statements of Server::run (extracted fragments): after a call the connection is kept (Ok(None)), parked with its stream, or dropped on read/write failure - exactly that connection, no other moves; after a stream item nothing moves, at stream end exactly that connection returns to the call list, on write failure only that subscription is dropped",
    note="NOT decided: ordering across iterations and multi-connection routing live in the select_biased! loop of Server::run (macro, awaits, unsafe reborrow) - only its straight-line statements are under contract; service answer arbitrary; send_* via contracts proved in write_path"),
- "C18": dict(cat="model_checking", ref="5 C18", tech="bounded stand-in: Kani/CBMC harnesses over the real select_all.rs via #[path], n <= 5 futures, all other inputs fully symbolic",
-   text="BOUNDED (n <= 5 futures, quick n <= 3): for every start index (all 2^64+1 Option<usize> values) and every readiness vector the real SelectAll::poll polls in rotation order s, s+1, ... each at most once, returns the first ready one, Pending iff none; and with the server's 'start at winner+1' glue the same connection does not win twice while another is ready; Verus additionally proves the glue statements of Server::run (winner recorded for every call, next start = winner + 1) and get_next_call (round starts exactly at the caller's index over one future per connection in list order)",
-   note="bounded in n, labelled bounded, never counted as proved; Verus cannot ingest impl Future for SelectAll; Server::run glue replicated in the harness; swap_remove reordering across closures not covered"),
+ "C18": dict(cat="proof", ref="12 C18", tech=TECH + "; Kani/CBMC harnesses on the unmodified file as a bounded cross-check",
+   text="for EVERY number of futures, every start index and every readiness pattern the real SelectAll::poll polls in rotation order s, s+1, ... (s = start % n), each at most once, stops at and returns the first ready one, Pending iff none (Verus, unbounded); lemma over that contract: started at winner+1 the previous winner is last, so it does not win again while another is ready; Verus also proves the glue of Server::run (winner recorded for every call, next start = winner + 1) and get_next_call (round starts exactly at the caller's index over one future per connection in list order); Kani re-checks rotation and two rounds on the unmodified file for n <= 5 (quick: 3)",
+   note="assumed: Pin/Future erasure (N25: a future's readiness in a round is a fixed ghost fact); Vec of pointer-sized elements holds <= isize::MAX entries; NOT decided: the select_biased! loop, the bound across closures and streaming transitions (swap_remove reordering)"),
  "C19": dict(cat="proof", ref="5 C19", tech=TECH + "; cancel-point assertion for the abandoned-send clause",
    text="the two transport adapters of zlink-tokio and zlink-smol: ReadHalf::read is a pass-through of the runtime read; WriteHalf::write hands the runtime exactly buf, in order, nothing else (loop invariant sent = buf[..pos], termination given n >= 1), a prefix on error. Listeners built from an inherited descriptor register a non-blocking descriptor (both crates); Connection::new takes its id from one atomic fetch_add and gives both halves the same id. The abandoned-send clause is a cancel-point obligation in the write loop; it FAILS in both crates and is reported as two KNOWN-FINDINGs (reproduced on real sockets by replay_rt)",
    note="assumed: kernel FIFO and runtime write/read contracts (trusted leaves); composition with C01/C02 on paper; async-io / tokio constructor preconditions assumed from their docs; uniqueness of fetch_add results assumed (hardware atomicity, wrap after 2^64); bind and bidirectional concurrency not decided"),
